@@ -67,7 +67,7 @@ def instances(rng):
         out.append(("exe", rng.choice([b"calc", b"svc_host", b"a1"]) + rng.choice([b".exe", b".EXE"]), "executable.filename", None))
         out.append(("dll", rng.choice([b"kernel32", b"my_lib"]) + rng.choice([b".dll", b".DLL"]), "executable.library.filename", None))
     for _ in range(3):
-        inner = rng.choice([b'"WScript.Shell"', b"a(b)c", b"f(g(h))", b""])
+        inner = rng.choice([b'"WScript.Shell"', b"a(b)c", b"f(g(h))", b"", b'"new:{72C24DD5-D70A-438B-8A42-98424B88AFB8}"', b"names[0]", b"a<b"])
         out.append(("createobject", rng.choice([b"CreateObject(", b"createobject("]) + inner + b")", "vba.function.createobject", None))
     out.append(("pe", pe_file(rng), "pe_file", None))
     return out
@@ -112,6 +112,7 @@ def run(ctx):
                     ctx.nontrivial.add((kind, text, pre, suf))
                 else:
                     ctx.violation("embedding", [data], f"{kind} instance {text[:60]!r} at offset {len(pre)} not reported with type {ty}, its canonical value and exactly its own span")
+    decoder_inputs = [b"MZ" + b"\x00" * k for k in (58, 59, 60, 61, 62, 63, 64)] + [b"x = CreateObject(\"new:{72C2}\") : y = 3)"] + decoder_inputs
     run_decoder_probe(ctx, DECODERS, extra_inputs=decoder_inputs[: ctx.budget(150, 2000)], n_regex=20, n_corpus=40, kinds=("indicator", "splice"))
 
 
